@@ -53,7 +53,7 @@ ExpectedTriples(line, GO) ==
 Sym(hdir, P) == IF hdir THEN P ELSE P \cup { <<x[2], x[1], x[3]>> : x \in P }
 
 ExpectedNodes(line, GO, P) ==
-  IF line.kind \in {"time_slice", "time_slice2"}
+  IF line.kind \in {"time_slice", "time_slice2", "snapshots", "interactions"}
   THEN { x[1] : x \in P } \cup { x[2] : x \in P }
   ELSE NodesOf(GO)
 
@@ -89,10 +89,47 @@ SelfTaints(line, RH) ==
   THEN UNION { { <<"KF1", p, r[1]>> : r \in { q \in RunsOf(RH.added[p]) : q[2] = q[1] + 1 } } : p \in DOMAIN RH.added }
   ELSE {}
 
-DeriveTable(R, prevO, line) ==
+\* ---- write / read round trips -------------------------------------------
+\* C09_a: one row per interaction and instant (orientation kept when directed)
+N3(x) == <<Norm(FALSE, x[1], x[2]), x[3]>>
+RowsAreTriples(dir, rows, P) ==
+  IF dir THEN ToSet(rows) = P /\ Len(rows) = Cardinality(P)
+  ELSE /\ { N3(x) : x \in ToSet(rows) } = { N3(x) : x \in P }
+       /\ Len(rows) = Cardinality({ N3(x) : x \in P })
+
+\* KF1 inherited through write_interactions: the '-' of a tainted two-instant
+\* run [a,a+1] is missing from the log, so the reader sees the single instant a
+KF1_lost(R, T) == UNION { { <<x[2][1], x[2][2], x[3] + 1>>, <<x[2][2], x[2][1], x[3] + 1>> } : x \in KF1_Live(R, T) }
+KF1_explains_read(R, T, got, exp) ==
+  /\ got \subseteq exp
+  /\ exp \ got \subseteq KF1_lost(R, T)
+  /\ exp \ got # {}
+
+IOExtras(R, T, GO, line, hdir) ==
+  LET pr == PropOf(line.kind)  nm(x) == pr \o "_" \o x IN
+  CASE line.kind = "snapshots" ->
+         { <<nm("a_rows"), St(line.rowerr = <<>> /\ RowsAreTriples(R.dir, line.rows, Triples(GO)))>> }
+    [] line.kind = "interactions" ->
+         { <<nm("a_rows"), St(line.rowerr = <<>> /\ line.rows = GO.stream)>>,
+           <<nm("c_same_stream"),
+             St(EvSet(R, line.obs.stream) = EvSet(R, GO.stream) /\ Len(line.obs.stream) = Len(GO.stream))>> }
+    [] line.kind = "json" ->
+         { <<nm("a_dumps"), St(line.dumps = "ok")>>,
+           <<nm("b_directed_flag"), St(line.ddirok /\ line.ddir = R.dir)>>,
+           <<nm("c_nodes"), St(/\ { x[1] : x \in ToSet(line.dnodes) } = NodesOf(GO)
+                               /\ Len(line.dnodes) = Cardinality(NodesOf(GO))
+                               /\ \A x \in ToSet(line.dnodes) :
+                                    \E y \in ToSet(line.gdig) : y[1] = x[1] /\ y[2] = x[3]
+                               /\ line.dgraph = line.ggraph)>>,
+           <<nm("d_links"), St(line.rowerr = <<>> /\ RowsAreTriples(R.dir, line.rows, Triples(GO)))>>,
+           <<nm("e_attrs_rebuilt"), St(/\ ToSet(line.hdig) = ToSet(line.gdig)
+                                       /\ line.hgraph = line.ggraph)>> }
+    [] OTHER -> {}
+
+DeriveTable(R, T, prevO, line) ==
   LET pr   == PropOf(line.kind)
       GO   == prevO
-      hdir == ExpectedDir(line, R)
+      hdir == IF line.kind = "json" /\ ~line.haskey THEN line.argdir ELSE ExpectedDir(line, R)
       nm(x) == pr \o "_" \o x
   IN
   IF line.res # "ok" \/ DerivedRes(line) # "ok"
@@ -100,20 +137,27 @@ DeriveTable(R, prevO, line) ==
          <<nm("d_source_unchanged"), St(line.src.raw = GO.raw)>> }
   ELSE
   LET HO   == line.obs
-      P    == ExpectedTriples(line, GO)
+      P    == IF line.kind = "json" /\ ~line.haskey THEN ToSet(line.rows) ELSE ExpectedTriples(line, GO)
       got  == Triples(HO)
       exp  == Sym(hdir, P)
       ns   == ExpectedNodes(line, GO, P)
-      RH   == SelfRef(hdir, HO, ns, AttrNonZero(AttrFn(GO), ns))
+      RH   == SelfRef(hdir, HO, ns, IF line.kind \in {"snapshots", "interactions"} THEN <<>>
+                                    ELSE AttrNonZero(AttrFn(GO), ns))   \* edge lists carry no attributes
       TH   == SelfTaints(line, RH)
-      self == CoreTable(RH, HO, TH) \cup C02_Table(RH, HO, line.q)
+      self == CoreTable(RH, HO, TH) \cup (IF line.q = <<>> THEN {} ELSE C02_Table(RH, HO, line.q))
+      okp  == got = exp /\ FlatPairs(HO) = { <<x[1], x[2]>> : x \in exp }
   IN
   { <<nm("a_class"), St(line.hdir = hdir /\ line.hcls = (IF hdir THEN "DynDiGraph" ELSE "DynGraph"))>>,
-    <<nm("b_presence"), StKF(got = exp /\ FlatPairs(HO) = { <<x[1], x[2]>> : x \in exp },
-                             KF3_explains(line, got, exp), "KF3")>>,
+    <<nm("b_presence"),
+      IF okp THEN "ok"
+      ELSE IF KF3_explains(line, got, exp) THEN "KF3"
+      ELSE IF line.kind = "interactions" /\ KF1_explains_read(R, T, got, exp) THEN "KF1"
+      ELSE "fail">>,
     <<nm("c_nodes_attrs"), St(/\ NodesOf(HO) = ns
-                              /\ \A x \in ToSet(HO.attrs) : x[1] \in DOMAIN AttrFn(GO) /\ x[2] = AttrFn(GO)[x[1]])>>,
+                              /\ (line.kind \in {"snapshots", "interactions"} \/
+                                  \A x \in ToSet(HO.attrs) : x[1] \in DOMAIN AttrFn(GO) /\ x[2] = AttrFn(GO)[x[1]]))>>,
     <<nm("d_source_unchanged"), St(line.src.raw = GO.raw /\ line.src2.raw = GO.raw)>>,
     <<nm("g_result_kind"), St(line.res = DerivedRes(line))>> }
   \cup { <<nm("H_" \o x[1]), x[2]>> : x \in self }
+  \cup IOExtras(R, T, GO, line, hdir)
 =============================================================================
